@@ -92,10 +92,11 @@ func (v *Vue) evalElseIfChain(ctx VueContext, node *html.Node, nodes []*html.Nod
 			return evaluated, lastChainNodeIdx, err
 		}
 		// v-if condition is false - check next nodes for v-else-if or v-else
-	} else {
+	} else if !helpers.HasAttr(node, "v-if") {
 		// No v-if attribute found - shouldn't happen, but handle gracefully
 		return result, lastChainNodeIdx, nil
 	}
+	// an empty v-if condition is falsy: fall through to the v-else-if / v-else members
 
 	// Check for v-else-if and v-else in following nodes
 	for idx := 1; idx < len(nodes); idx++ {
